@@ -878,12 +878,18 @@ def t1_property(pid, tier, seed, replay):
             out_lines.append(f"KNOWN-FINDING: property={pid} {f['what']} [{known_hits[f['id']]} cases, e.g. {known_first[f['id']]['case']}]")
     new_direct = direct
     if new_direct:
-        d = min(new_direct, key=lambda d: len(d["case"]))
-        p = write_replay(pid, "direct", dict(property=pid, kind="direct violation on the real code",
+        # a run of the real code that fails the predicate is the replay of choice; a static rule (a
+        # table theorem over the regenerated facts) that no longer holds names the offending
+        # function but is not a failing input: it is reported as such
+        dynamic = [d for d in new_direct if d.get("source") != "static"]
+        only_static = not dynamic
+        d = min(dynamic or new_direct, key=lambda d: len(d["case"]))
+        p = write_replay(pid, "direct", dict(property=pid,
+                 kind=("table theorem over the regenerated fact table no longer holds (static rule); no run of the real code failing the predicate was found in the enumerated families" if only_static else "direct violation on the real code"),
                  predicate=cfg["pred"], message=d["message"], case=d["case"], impl_transcript=d["impl"],
                  model_transcript=d["model"], others=len(new_direct) - 1,
                  replay_cmd=f"./check {pid} --replay <this file>"))
-        out_lines.append(f"VIOLATION property={pid} replay={p}")
+        out_lines.append(f"VIOLATION property={pid} replay={p}" + (" no-failing-input-found" if only_static else ""))
         rc = 1
     elif disagreements or violations:
         # a proof obligation or the correspondence broke, but no implementation transcript violates
